@@ -189,4 +189,277 @@ theorem decode_encode_masked (c : Conf) (hw0 : 0 < c.word) (hw : c.word % 4 = 0)
     (minimal_fits _ hl64) hlen hctl rest]
   simp [frameOutcome]
 
+
+/-- A ping with payload `p`, `|p| ≤ 125`, (in any fragmentation state) is answered by exactly one frame:
+    the pong `8a len p` — FIN, unmasked, minimal length, identical payload — and nothing is closed. -/
+theorem pong_echo (c : Conf) (hsrv : c.isServer = true) (hok : c.sendOk = true) (f : Flags)
+    (hfin : f.fin = true) (hrsv : f.rsv = 0) (hop : f.opcode = opPing) (p : Bytes) (hp : p.length ≤ 125) :
+    (wsHandleFrame c f p).actions =
+      Action.write true (wire true 0 opPong none .short p) ::
+        (match c.cbs.ping with | some _ => [Action.ping p] | none => []) ∧
+    (c.cbs.ping = none → (wsHandleFrame c f p).ret = .ok) ∧
+    (wsHandleFrame c f p).flags = f := by
+  have hmin : LenForm.minimal p.length = .short := by simp [LenForm.minimal, hp]
+  have hfr : c.frame 0 opPong p = wire true 0 opPong none .short p := by
+    simp only [Conf.frame, hsrv]
+    rw [sendFrame_server_eq_wire _ _ _ _ (by decide), hmin]
+  have hlen : ¬ (p.length > wsSmallFrameSize) := by simp only [wsSmallFrameSize]; omega
+  obtain ⟨fin, rsv, opcode, mask, fo, isf, ifc⟩ := f
+  simp only at hfin hrsv hop
+  subst hfin hrsv hop
+  simp only [wsHandleFrame, rsvCheck, fragStep, dispatchOpcode]
+  simp [hlen, hok, hfr, Conf.afterSend, hsrv, opPing, opClose, opBinary, opText, opContinuation]
+  cases c.cbs.ping <;> simp
+
+
+example : (wsHandleFrame { cbs := daemonCallbacks (fun _ => true), utf8Valid := fun _ => true, bufSize := 512 }
+    { fin := true, opcode := opPing } [1, 2, 3]).actions = [Action.write true [0x8a, 3, 1, 2, 3]] := by decide
+
+/-! ## Close codes -/
+
+/-- what "the connection ends with a close frame of status `code`" means for an upgraded server:
+    `88 02 hi lo` is written, the connection is released, `on_error` runs — and nothing else -/
+theorem refusal_is_close_frame (c : Conf) (hs : c.isServer = true) (hu : c.upgradeComplete = true) (code : Nat) :
+    handleError c code = [Action.write c.sendOk (serverCloseFrame code), Action.closeConn, Action.onError] :=
+  handleError_server c hs hu code
+
+example : serverCloseFrame closeProtocolError = [0x88, 0x02, 0x03, 0xea] := by decide
+
+/-- an unmasked client frame → 1002 (whatever else the frame is) -/
+theorem close_code_unmasked (c : Conf) (hs : c.isServer = true) (fl : Flags) (hm : fl.mask = false) (payload : Bytes) :
+    (frameOutcome c fl payload).open_ = false ∧
+    (frameOutcome c fl payload).actions = handleError c closeProtocolError := by
+  simp [frameOutcome, hs, hm]
+
+/-- a reserved bit without a negotiated extension → 1002 -/
+theorem close_code_rsv (c : Conf) (hx : c.extAccepted = false) (f : Flags) (hr : f.rsv ≠ 0) (p : Bytes) :
+    (wsHandleFrame c f p).refusedWith c closeProtocolError := by
+  simp [wsHandleFrame, rsvCheck, hr, hx, refuse, HandleResult.refusedWith]
+
+/-- a reserved opcode (3-7, 11-15) → 1002, with or without FIN, in any fragmentation state -/
+theorem close_code_reserved_opcode (c : Conf) (f : Flags)
+    (hop : f.opcode ≠ opContinuation ∧ f.opcode ≠ opText ∧ f.opcode ≠ opBinary ∧
+           f.opcode ≠ opClose ∧ f.opcode ≠ opPing ∧ f.opcode ≠ opPong) (p : Bytes) :
+    (wsHandleFrame c f p).refusedWith c closeProtocolError := by
+  obtain ⟨fin, rsv, opcode, mask, fo, isf, ifc⟩ := f
+  simp only [opContinuation, opText, opBinary, opClose, opPing, opPong] at hop
+  obtain ⟨h0, h1, h2, h8, h9, h10⟩ := hop
+  simp only [wsHandleFrame]
+  cases hrc : rsvCheck c _ with
+  | none => simp [refuse, HandleResult.refusedWith]
+  | some comp =>
+    simp only [fragStep, dispatchOpcode, opContinuation, opText, opBinary, opClose, opPing, opPong]
+    cases fin <;> cases isf <;> simp [refuse, HandleResult.refusedWith, h0, h1, h2, h8, h9, h10] <;>
+      (repeat' split) <;> simp_all <;> omega
+
+
+/-- a fragmented control frame (FIN = 0, opcode ≥ 8) → 1002 -/
+theorem close_code_fragmented_control (c : Conf) (hx : c.extAccepted = false) (f : Flags) (hfin : f.fin = false)
+    (hop : f.opcode ≥ opClose) (p : Bytes) :
+    (wsHandleFrame c f p).refusedWith c closeProtocolError := by
+  by_cases hr : f.rsv = 0
+  · simp [wsHandleFrame, rsvCheck, hr, hfin, hop, refuse, HandleResult.refusedWith]
+  · exact close_code_rsv c hx f hr p
+
+/-- a control frame whose declared length exceeds 125 → 1002 as soon as the length is known, before
+    any payload byte is requested (so also when the length exceeds the read buffer) — for each of the
+    three length forms, masked or not -/
+theorem close_code_control_too_long (c : Conf) (hbuf : 8 ≤ c.bufSize) (a : Nat) (s : St) (hs : s.phase = .header)
+    (fin : Bool) (rsv opcode : Nat) (hr : rsv < 8) (ho : opcode < 16) (masked : Bool) (form : LenForm) (len : Nat)
+    (hfit : form.fits len) (hctl : opcode ≥ opClose) (hbig : len > wsSmallFrameSize) (rest : Bytes) :
+    (run c a s (wireHeader fin rsv opcode masked form len ++ rest)).2.2 = handleError c closeProtocolError ∧
+    (run c a s (wireHeader fin rsv opcode masked form len ++ rest)).1.phase = .closed := by
+  rw [run_header c a s hs hbuf fin rsv opcode masked form len hr ho hfit rest]
+  have hrm : readMaskOrPayload c a (s.withHeader fin rsv opcode masked len) =
+      ({ s.withHeader fin rsv opcode masked len with phase := .closed }, handleError c closeProtocolError) := by
+    simp [readMaskOrPayload, St.withHeader, hctl, hbig]
+  rw [hrm, run_closed c a _ rest rfl]
+  simp [seqRun]
+
+/-- … and the dispatcher itself refuses a ping or pong payload above 125 with 1002 -/
+theorem close_code_ping_pong_too_long (c : Conf) (f : Flags) (hfin : f.fin = true) (hrsv : f.rsv = 0)
+    (hop : f.opcode = opPing ∨ f.opcode = opPong) (p : Bytes) (hp : p.length > wsSmallFrameSize) :
+    (wsHandleFrame c f p).refusedWith c closeProtocolError := by
+  obtain ⟨fin, rsv, opcode, mask, fo, isf, ifc⟩ := f
+  simp only at hfin hrsv hop
+  subst hfin hrsv
+  rcases hop with h | h <;> subst h <;>
+    simp [wsHandleFrame, rsvCheck, fragStep, dispatchOpcode, refuse, HandleResult.refusedWith, hp,
+      opPing, opPong, opClose, opBinary, opText, opContinuation]
+
+/-- a close frame with a one byte payload → 1002 -/
+theorem close_code_close_length_one (c : Conf) (f : Flags) (hfin : f.fin = true) (hrsv : f.rsv = 0)
+    (hop : f.opcode = opClose) (b : UInt8) :
+    (wsHandleFrame c f [b]).refusedWith c closeProtocolError := by
+  obtain ⟨fin, rsv, opcode, mask, fo, isf, ifc⟩ := f
+  simp only at hfin hrsv hop
+  subst hfin hrsv hop
+  simp [wsHandleFrame, rsvCheck, fragStep, dispatchOpcode, refuse, HandleResult.refusedWith,
+    opPing, opPong, opClose, opBinary, opText, opContinuation]
+
+/-- the valid status codes are exactly 1000-1003, 1007-1011 and 3000-4999 -/
+theorem status_code_ranges (code : Nat) :
+    isStatusCodeInvalid code = false ↔
+      (1000 ≤ code ∧ code ≤ 1003) ∨ (1007 ≤ code ∧ code ≤ 1011) ∨ (3000 ≤ code ∧ code ≤ 4999) := by
+  simp [isStatusCodeInvalid, validStatusRanges]
+  omega
+
+/-- a close frame carrying an invalid status code (reason absent or valid UTF-8) → 1002 -/
+theorem close_code_invalid_status (c : Conf) (f : Flags) (hfin : f.fin = true) (hrsv : f.rsv = 0)
+    (hop : f.opcode = opClose) (p : Bytes) (hlen : 2 ≤ p.length)
+    (hutf : p.length > 2 → c.utf8Valid (p.drop 2) = true)
+    (hbad : isStatusCodeInvalid (beVal (p.take 2)) = true) :
+    (wsHandleFrame c f p).refusedWith c closeProtocolError := by
+  obtain ⟨fin, rsv, opcode, mask, fo, isf, ifc⟩ := f
+  simp only at hfin hrsv hop
+  subst hfin hrsv hop
+  have h2 : ¬ (p.length = 1) := by omega
+  by_cases h3 : p.length > 2
+  · simp [wsHandleFrame, rsvCheck, fragStep, dispatchOpcode, refuse, HandleResult.refusedWith,
+      opPing, opPong, opClose, opBinary, opText, opContinuation, hlen, hutf h3, hbad, h3]
+  · simp [wsHandleFrame, rsvCheck, fragStep, dispatchOpcode, refuse, HandleResult.refusedWith,
+      opPing, opPong, opClose, opBinary, opText, opContinuation, hlen, hbad, h3]
+
+/-- a close frame whose reason is not valid UTF-8 → 1007 -/
+theorem close_code_invalid_utf8 (c : Conf) (f : Flags) (hfin : f.fin = true) (hrsv : f.rsv = 0)
+    (hop : f.opcode = opClose) (p : Bytes) (hlen : p.length > 2) (hutf : c.utf8Valid (p.drop 2) = false) :
+    (wsHandleFrame c f p).refusedWith c closeUnsupportedData := by
+  obtain ⟨fin, rsv, opcode, mask, fo, isf, ifc⟩ := f
+  simp only at hfin hrsv hop
+  subst hfin hrsv hop
+  simp [wsHandleFrame, rsvCheck, fragStep, dispatchOpcode, refuse, HandleResult.refusedWith,
+    opPing, opPong, opClose, opBinary, opText, opContinuation, hlen, hutf]
+
+/-- a well-formed close frame (empty, or valid code + valid reason, at most 125 bytes) is answered by
+    the close frame 1000, the connection is released and `close_received` gets the peer's code -/
+theorem close_handshake (c : Conf) (f : Flags) (hfin : f.fin = true) (hrsv : f.rsv = 0)
+    (hop : f.opcode = opClose) (p : Bytes) (hl1 : p.length ≠ 1) (hl : p.length ≤ wsSmallFrameSize)
+    (hutf : p.length > 2 → c.utf8Valid (p.drop 2) = true)
+    (hgood : p.length ≥ 2 → isStatusCodeInvalid (beVal (p.take 2)) = false) :
+    (wsHandleFrame c f p).ret = .closed ∧
+    (wsHandleFrame c f p).actions = websocketClose c closeNormal ++
+      (match c.cbs.close with
+       | some _ => [Action.closeReceived (if p.length ≥ 2 then beVal (p.take 2) else closeNormal)]
+       | none => []) := by
+  obtain ⟨fin, rsv, opcode, mask, fo, isf, ifc⟩ := f
+  simp only at hfin hrsv hop
+  subst hfin hrsv hop
+  have hl' : ¬ (p.length > wsSmallFrameSize) := by omega
+  by_cases h2 : p.length ≥ 2
+  · by_cases h3 : p.length > 2
+    · simp [wsHandleFrame, rsvCheck, fragStep, dispatchOpcode, hl1, hl', hutf h3, hgood h2, h2, h3,
+        opPing, opPong, opClose, opBinary, opText, opContinuation]
+      cases c.cbs.close <;> rfl
+    · simp [wsHandleFrame, rsvCheck, fragStep, dispatchOpcode, hl1, hl', hgood h2, h2, h3,
+        opPing, opPong, opClose, opBinary, opText, opContinuation]
+      cases c.cbs.close <;> rfl
+  · have h0 : p.length = 0 := by omega
+    have hn : isStatusCodeInvalid closeNormal = false := by decide
+    simp [wsHandleFrame, rsvCheck, fragStep, dispatchOpcode, h0, hn,
+      opPing, opPong, opClose, opBinary, opText, opContinuation]
+    cases c.cbs.close <;> rfl
+
+
+/-! ## The daemon's callback set (websocket_peer.c) -/
+
+/-- the generated facts about `init_websocket_peer` agree with `daemonCallbacks` -/
+theorem daemon_callback_set (parseOk : Bytes → Bool) :
+    ((daemonCallbacks parseOk).textMessage.isSome, (daemonCallbacks parseOk).textFrame.isSome,
+     (daemonCallbacks parseOk).binaryMessage.isSome, (daemonCallbacks parseOk).binaryFrame.isSome,
+     (daemonCallbacks parseOk).ping.isSome, (daemonCallbacks parseOk).pong.isSome,
+     (daemonCallbacks parseOk).close.isSome) =
+    (daemonSets_text_message_received, daemonSets_text_frame_received, daemonSets_binary_message_received,
+     daemonSets_binary_frame_received, daemonSets_ping_received, daemonSets_pong_received,
+     daemonSets_close_received) := by
+  rfl
+
+/-- a binary message: the daemon has no binary handler → 1003 -/
+theorem close_code_binary_message (c : Conf) (parseOk : Bytes → Bool) (hc : c.cbs = daemonCallbacks parseOk)
+    (f : Flags) (hfin : f.fin = true) (hrsv : f.rsv = 0) (hop : f.opcode = opBinary) (hfr : f.isFragmented = false)
+    (p : Bytes) :
+    (wsHandleFrame c f p).refusedWith c closeUnsupported := by
+  obtain ⟨fin, rsv, opcode, mask, fo, isf, ifc⟩ := f
+  simp only at hfin hrsv hop hfr
+  subst hfin hrsv hop hfr
+  simp [wsHandleFrame, rsvCheck, fragStep, dispatchOpcode, refuse, HandleResult.refusedWith, hc, daemonCallbacks,
+    opPing, opPong, opClose, opBinary, opText, opContinuation]
+
+/-- a text message: the payload is handed to the JSON-RPC layer exactly once; if that layer accepts it
+    the connection stays open and nothing is written by the WebSocket layer; if it rejects it the
+    connection ends with close frame 1011 -/
+theorem text_message_dispatch (c : Conf) (parseOk : Bytes → Bool) (hc : c.cbs = daemonCallbacks parseOk)
+    (hs : c.isServer = true) (fl : Flags) (hm : fl.mask = true) (hfin : fl.fin = true) (hrsv : fl.rsv = 0)
+    (hop : fl.opcode = opText) (hfr : fl.isFragmented = false) (p : Bytes) :
+    (parseOk p = true →
+      (frameOutcome c fl p).open_ = true ∧ (frameOutcome c fl p).actions = [Action.textMessage p]) ∧
+    (parseOk p = false →
+      (frameOutcome c fl p).open_ = false ∧
+      (frameOutcome c fl p).actions = Action.textMessage p :: handleError c closeInternalError) := by
+  obtain ⟨fin, rsv, opcode, mask, fo, isf, ifc⟩ := fl
+  simp only at hfin hrsv hop hfr hm
+  subst hfin hrsv hop hfr hm
+  constructor <;> intro hp <;>
+    simp [frameOutcome, hs, payloadResult, wsHandleFrame, rsvCheck, fragStep, dispatchOpcode, hc, daemonCallbacks, hp,
+      opPing, opPong, opClose, opBinary, opText, opContinuation]
+
+/-- **Fragmented data messages are processed or refused with a close frame — never anything else.**
+    For every callback set: a fragment (FIN = 0 data frame, or a continuation frame) either reaches
+    `text_frame_received` / `binary_frame_received` with its payload, or the only thing that happens is
+    `handle_error` with 1002 (protocol) or 1003 (no fragment handler). -/
+theorem data_fragments_processed_or_refused (c : Conf) (f : Flags)
+    (hfrag : (f.fin = false ∧ f.opcode < opClose) ∨ f.opcode = opContinuation) (p : Bytes) :
+    (∃ last, (wsHandleFrame c f p).actions.head? = some (Action.textFrame p last)) ∨
+    (∃ last, (wsHandleFrame c f p).actions.head? = some (Action.binaryFrame p last)) ∨
+    (wsHandleFrame c f p).refusedWith c closeProtocolError ∨
+    (wsHandleFrame c f p).refusedWith c closeUnsupported := by
+  rcases handleFrame_fragment c f hfrag p with h | ⟨f', h⟩ | ⟨f', h0, h⟩
+  · rw [h]; exact fragOutcome_refuse1002 c p f
+  · rw [h]; exact fragOutcome_refuse1002 c p f'
+  · rw [h]; exact dispatch_continuation c f' p h0
+
+/-- With the daemon's callback set (no fragment handlers) every fragment is refused with a close frame:
+    1002 for a protocol error, 1003 otherwise. -/
+theorem daemon_fragments_refused (c : Conf) (parseOk : Bytes → Bool) (hc : c.cbs = daemonCallbacks parseOk)
+    (f : Flags) (hfrag : (f.fin = false ∧ f.opcode < opClose) ∨ f.opcode = opContinuation) (p : Bytes) :
+    (wsHandleFrame c f p).refusedWith c closeProtocolError ∨
+    (wsHandleFrame c f p).refusedWith c closeUnsupported := by
+  rcases handleFrame_fragment c f hfrag p with h | ⟨f', h⟩ | ⟨f', h0, h⟩
+  · rw [h]; exact Or.inl (refuse_refusedWith c f _)
+  · rw [h]; exact Or.inl (refuse_refusedWith c f' _)
+  · rw [h]; exact dispatch_continuation_nohandler c f' p h0 (by rw [hc]; rfl) (by rw [hc]; rfl)
+
+example : (wsHandleFrame { cbs := daemonCallbacks (fun _ => true), utf8Valid := fun _ => true, bufSize := 512 }
+    { fin := false, opcode := opText, mask := true } [104]).actions =
+    [Action.write true [0x88, 2, 0x03, 0xeb], Action.closeConn, Action.onError] := by decide
+
+/-! ## base64, SHA-1, the accept value -/
+
+theorem base64_length (bs : Bytes) : (Base64.encode bs).length = 4 * ((bs.length + 2) / 3) :=
+  Base64.encode_length bs
+
+/-- the specification decoder (RFC 4648, canonical padding) inverts `b64_encode_buffer` on every input -/
+theorem base64_decode_encode (bs : Bytes) : Base64.decode (Base64.encode bs) = some bs :=
+  Base64.decode_encode bs
+
+theorem sha1_length (msg : Bytes) : (Sha1.sha1 msg).length = sha1HashSize := by
+  simp [Sha1.sha1, Sha1.be32, sha1HashSize]
+
+/-- RFC 3174 test vectors 1 and 2 -/
+theorem sha1_rfc3174_vectors :
+    Sha1.sha1 "abc".toUTF8.toList =
+      [0xA9, 0x99, 0x3E, 0x36, 0x47, 0x06, 0x81, 0x6A, 0xBA, 0x3E, 0x25, 0x71, 0x78, 0x50, 0xC2, 0x6C, 0x9C, 0xD0, 0xD8, 0x9D] ∧
+    Sha1.sha1 "abcdbcdecdefdefgefghfghighijhijkijkljklmklmnlmnomnopnopq".toUTF8.toList =
+      [0x84, 0x98, 0x3E, 0x44, 0x1C, 0x3B, 0xD2, 0x6E, 0xBA, 0xAE, 0x4A, 0xA1, 0xF9, 0x51, 0x29, 0xE5, 0xE5, 0x46, 0x70, 0xF1] := by
+  decide +kernel
+
+/-- the accept value always has the 28 characters `send_upgrade_response` reserves for it -/
+theorem accept_value_length (secKey : Bytes) : (acceptValue secKey).length = acceptValueSize := by
+  simp [acceptValue, base64_length, sha1_length, sha1HashSize, acceptValueSize]
+
+/-- RFC 6455 §1.3 sample: key `dGhlIHNhbXBsZSBub25jZQ==` gives `s3pPLMBiTxaQ9kYGzzhZRbK+xOo=` -/
+theorem accept_value_rfc6455_sample :
+    acceptValue ("dGhlIHNhbXBsZSBub25jZQ==".toUTF8.toList ++ wsGuid) = "s3pPLMBiTxaQ9kYGzzhZRbK+xOo=".toUTF8.toList := by
+  decide +kernel
+
+
 end Cjet.Props.C12
